@@ -95,7 +95,7 @@ Inductive reaction :=
                              33 UnsupportedSASLMechanism, 58 SASLAuthenticationFailed, ... *)
 | RMalformed              (* a response the client's decoder rejects: cut off mid-frame,
                              body shorter than its schema, wrong correlation id *)
-| RNegLen                 (* raw exchange only: a negative length prefix *)
+| RNegLen                 (* raw exchange only: a negative length prefix (a malformed message) *)
 | RClose.                 (* connection closed instead of a response *)
 
 Inductive event :=
@@ -103,8 +103,7 @@ Inductive event :=
 | ERecv (r : reaction)
 | EVerdict                (* the final success response arrived and the mechanism completed *)
 | EHandOut                (* Dial returned the Conn / conn.run started serving requests *)
-| EClose                  (* the client closed the connection *)
-| EPanic.                 (* the client goroutine panicked *)
+| EClose.                 (* the client closed the connection *)
 
 Inductive label :=
 | LStart                  (* the connection is established; the client starts talking *)
@@ -133,7 +132,6 @@ Section Machine.
   | PAccepted                                 (* the loop completed *)
   | PHandedOut
   | PFailed                                   (* error returned, connection closed *)
-  | PPanicked
   | PUserClosed.
 
   Record state := mkState { ph : phase; tr : list event }.
@@ -195,16 +193,11 @@ Section Machine.
             end
         | RMalformed | RClose => Some (fail s r)
         | RNegLen =>
-            match f, p with
-            | Framed, _ => None
-            | Raw, Dialer =>
-                (* conn.go:1648 readNewBytes(r, n, n) with n <= 0 reads nothing and returns
-                   (nil, nil): the negative length is taken for an empty challenge *)
-                Some (on_challenge s f i ms r [])
-            | Raw, Transport =>
-                (* protocol/saslauthenticate readResp: make([]byte, respLen) with a negative
-                   respLen panics in the goroutine started by grabConnOrConnect *)
-                Some (mkState PPanicked (EPanic :: ERecv r :: tr s))
+            (* conn.go saslAuthenticate (raw branch) and protocol/saslauthenticate readResp
+               both return an error when the length prefix is negative *)
+            match f with
+            | Framed => None
+            | Raw => Some (fail s r)
             end
         end
     | PAccepted, LReturn => Some (mkState PHandedOut (EHandOut :: tr s))
@@ -227,8 +220,7 @@ Section Machine.
   Definition failing (s : state) (r : reaction) : Prop :=
     match r with
     | RErr c => c <> 0
-    | RMalformed | RClose => True
-    | RNegLen => False
+    | RMalformed | RNegLen | RClose => True
     | ROk payload =>
         match ph s with
         | PApiSent => hs_version p a < 0
@@ -339,7 +331,6 @@ Arguments PAuth {mstate}.
 Arguments PAccepted {mstate}.
 Arguments PHandedOut {mstate}.
 Arguments PFailed {mstate}.
-Arguments PPanicked {mstate}.
 Arguments PUserClosed {mstate}.
 Arguments init {mstate}.
 Arguments trace {mstate}.
